@@ -2,7 +2,10 @@
 
 package otr3
 
-import "math/big"
+import (
+	"bytes"
+	"math/big"
+)
 
 // ---------------------------------------------------------------------------
 // C17 — serialisation round trips
@@ -295,6 +298,68 @@ func VH_C17_messages() {
 		if ok2 {
 			g := pk.(*DSAPrivateKey)
 			vAssert("priv-rt", vAll(vBigEq(g.X, priv.X), vBigEq(g.PrivateKey.P, pub.P), vBigEq(g.PrivateKey.Y, pub.Y)))
+		}
+	}
+	vReach("end")
+}
+
+// H-C17-keyfile: a libotr key file written by exportAccounts and read back by
+// ImportKeys: account name (permitted characters), protocol and all five DSA
+// parameters come back as written, for a parameter of arbitrary value (any
+// number of leading zero nibbles) in each position.
+//
+// vh: prop=C17 expect=end unwind=600 timeout=60000 maxsteps=100000000
+func VH_C17_keyfile() {
+	nb := 2
+	if vTier() == 1 {
+		nb = 3
+	}
+	key := &DSAPrivateKey{}
+	key.PrivateKey.P = big.NewInt(0xF1)
+	key.PrivateKey.Q = big.NewInt(0x0B)
+	key.PrivateKey.G = big.NewInt(0x1C)
+	key.PrivateKey.Y = big.NewInt(0xD00D)
+	key.PrivateKey.X = big.NewInt(0x0E)
+	val := new(big.Int).SetBytes(vBytes("val", nb))
+	which := vChoose("param", 5)
+	switch which {
+	case 0:
+		key.PrivateKey.P = val
+	case 1:
+		key.PrivateKey.Q = val
+	case 2:
+		key.PrivateKey.G = val
+	case 3:
+		key.PrivateKey.Y = val
+	case 4:
+		key.PrivateKey.X = val
+	}
+	key.DSAPublicKey.PublicKey = key.PrivateKey.PublicKey
+	name := vBytes("name", 1+vChoose("namelen", 2))
+	for i := range name {
+		ch := name[i]
+		vAssume(vAny(vAll(ch >= 'a', ch <= 'z'), vAll(ch >= '0', ch <= '9'), ch == '@', ch == '.', ch == '-', ch == '_', ch == '/'))
+	}
+	acc := &Account{Name: string(name), Protocol: "prpl-jabber", Key: key}
+	var buf bytes.Buffer
+	exportAccounts([]*Account{acc}, &buf)
+	text := buf.Bytes()
+	accs, err := ImportKeys(bytes.NewReader(text))
+	vObserve("keyfile", text, len(accs), err == nil)
+	vAssert("import-accepts-export", vAll(err == nil, len(accs) == 1))
+	if err == nil && len(accs) == 1 {
+		a := accs[0]
+		vAssert("name", vAll(len(a.Name) == len(name), a.Name == string(name)))
+		vAssert("protocol", a.Protocol == "prpl-jabber")
+		k2, isDSA := a.Key.(*DSAPrivateKey)
+		vAssert("key-type", isDSA)
+		if isDSA {
+			vAssert("p", vBigEq(k2.PrivateKey.P, key.PrivateKey.P))
+			vAssert("q", vBigEq(k2.PrivateKey.Q, key.PrivateKey.Q))
+			vAssert("g", vBigEq(k2.PrivateKey.G, key.PrivateKey.G))
+			vAssert("y", vBigEq(k2.PrivateKey.Y, key.PrivateKey.Y))
+			vAssert("x", vBigEq(k2.PrivateKey.X, key.PrivateKey.X))
+			vAssert("public-half-set", vBigEq(k2.DSAPublicKey.PublicKey.Y, key.PrivateKey.Y))
 		}
 	}
 	vReach("end")
